@@ -459,6 +459,9 @@ func (e *concEnv) mkScenario(cs CScenario, lockOnly bool, wantLinearizable bool)
 				fs = append(fs, sched.Finding{Key: "deadlock:" + cs.Name, What: fmt.Sprintf("scenario %s: requests wait on each other forever: %s", cs.Name, strings.Join(x.Blocked, "; "))})
 				return fs
 			}
+			for _, m := range x.Misuse {
+				fs = append(fs, sched.Finding{Key: "misuse:" + cs.Name, What: fmt.Sprintf("scenario %s: a request released a lock that nobody held, so an earlier release freed a lock its request did not own; the daemon ends with 'fatal error: sync: %s' and answers nobody", cs.Name, m)})
+			}
 			for id, p := range x.Panics {
 				fs = append(fs, sched.Finding{Key: "panic:" + cs.Name, What: fmt.Sprintf("scenario %s: thread %d panicked: %s", cs.Name, id, p)})
 			}
